@@ -119,8 +119,8 @@ func c07Run(c *Ctx) {
 }
 
 // the same id with and without '+' side by side (a de-duplication that forgets the '+' merges them)
-var c07PlusTerms = []string{"Apache-2.0", "Apache-1.1", "MIT", "MIT+", "GPL-2.0-only+"}
-var c07PlusEntries = []string{"Apache-1.0", "Apache-1.0+", "Apache-1.1", "MIT", "MIT+", "Zlib", "GPL-2.0-only", "GPL-2.0-only+"}
+var c07PlusTerms = []string{"Apache-2.0", "Apache-1.1", "MIT", "MIT+", "GPL-2.0-only+", "Apache-1.1+"}
+var c07PlusEntries = []string{"Apache-1.0", "Apache-1.0+", "Apache-1.1", "MIT", "MIT+", "Zlib", "GPL-2.0-only", "GPL-2.0-only+", "Apache-2.0"}
 
 // padding entries: unrelated to every term used below (no family, not mentioned)
 var c07Padding = []string{"Beerware", "Unlicense", "WTFPL", "X11", "NTP", "Vim", "curl", "Ruby", "JSON", "Zed", "0BSD", "zlib-acknowledgement", "ISC", "Libpng"}
